@@ -273,6 +273,9 @@ def build_response(scn, rec, cfg=None):
         elif f.get("style") == "old":
             if f.get("null_new"):
                 result["filter_stats"] = {"filtered_complete": {"weighted": None}}
+            if f.get("catdate"):
+                # the flag alone, without complete-case statistics
+                result.setdefault("filter_stats", {})["is_cat_date"] = True
             result["filtered"] = {"unweighted_n": f.get("fn"), "weighted_n": f.get("fn")}
             result["unfiltered"] = {"unweighted_n": f.get("un"), "weighted_n": f.get("un")}
             if f.get("fn") is None:
